@@ -110,7 +110,9 @@ T = {
     change="app/app.go BlockedModuleAccountAddrs: the wrong ICS consumer account is un-blocked, cons_to_send_to_provider stays blocked",
     needs="Eden inflation on, provider portion > 0, a second ten-day epoch start with a positive vesting claim for the provider account: bank refuses the send, the epochs begin-blocker panics",
     caught_by="C18.block_ok in hist fault mode in the inflation world",
-    history="MISSED at first (no inflation configured in any world); inflation variant added - which at once exposed a genuine defect of the unchanged code (fix e07ea76); caught since"),
+    history="MISSED at first (no inflation configured in any world); inflation variant added - which at once exposed a genuine defect of the unchanged code (fix e07ea76); "
+            "then caught (C18.block_ok, teeth.log). Since fix 7acf6c7 (the estaking epoch hook no longer passes a failed provider claim on to the panicking epochs "
+            "begin-blocker) this change no longer halts the chain, i.e. it no longer violates C18, and the check is rightly silent on it (teeth_after_7acf6c7.log)"),
  "C19-1": dict(
     change="x/amm/types/pow_approx.go exponentialLogarithmicMethod: lnBase.MulMut(exp) overwrites the package-level ln2 constant when base == 2",
     needs="unequal-weight pool with a fractional exponent; an operation (even a refused one) with power base exactly 2; then a process that never evaluated it (restart) executing a swap with base outside [0.5, 2)",
